@@ -352,59 +352,35 @@ void
 get_pfn_map_bits(const struct pfn_file_map *maps, size_t nmaps,
 		 kdump_addr_t first, kdump_addr_t last, unsigned char *bits)
 {
-	const struct pfn_file_map *pfm, *last_pfm;
+	const struct pfn_file_map *pfm;
 	const struct pfn_region *rgn, *end;
 	kdump_addr_t cur, next;
 
-	if (! (pfm = find_pfn_file_map(maps, nmaps, first)) ||
-	    ! (rgn = find_pfn_region(pfm, first))) {
-		memset(bits, 0, ((last - first) >> 3) + 1);
+	/* Bits are clear unless a region covers them. */
+	memset(bits, 0, ((last - first) >> 3) + 1);
+
+	if (! (pfm = find_pfn_file_map(maps, nmaps, first)))
 		return;
-	}
 
-	/* Clear extra bits in the last byte of the raw bitmap. */
-	bits[(last - first) >> 3] = 0;
-
-	/* Clear bits beyond last PFN region. */
-	last_pfm = &maps[nmaps - 1];
-	end = last_pfm->regions + last_pfm->nregions - 1;
-	next = end->pfn + end->cnt;
-	if (next <= last) {
-		clear_bits(bits, next - first, last - first);
-		last = next - 1;
-	}
-
-	cur = first;
-	for ( ;; ) {
-		next = rgn->pfn;
-		if (cur < next) {
-			if (next > last) {
-				clear_bits(bits, cur - first, last - first);
-				break;
+	for (rgn = find_pfn_region(pfm, first); ; rgn = pfm->regions) {
+		end = pfm->regions + pfm->nregions;
+		for ( ; rgn && rgn < end; ++rgn) {
+			cur = rgn->pfn > first ? rgn->pfn : first;
+			if (cur > last)
+				return;
+			next = rgn->pfn + rgn->cnt - 1;
+			if (next >= last) {
+				set_bits(bits, cur - first, last - first);
+				return;
 			}
-			clear_bits(bits, cur - first, next - 1 - first);
-			cur = next;
+			if (next >= cur)
+				set_bits(bits, cur - first, next - first);
 		}
-
-		next += rgn->cnt - 1;
-		if (next >= last) {
-			set_bits(bits, cur - first, last - first);
-			break;
-		}
-		set_bits(bits, cur - first, next - first);
-		cur = next + 1;
-		if (++rgn == &pfm->regions[pfm->nregions]) {
-			++pfm;
-			rgn = pfm->regions;
-		}
+		if (++pfm == maps + nmaps)
+			return;
 	}
 }
 
-/** Compare two PFN-to-file maps for @c qsort.
- * @param a  Pointer to first pdmap.
- * @param b  Pointer to second pdmap.
- * @returns  Result of comparison.
- */
 static int
 map_cmp(const void *a, const void *b)
 {
